@@ -84,6 +84,27 @@ def run(ctx: Ctx) -> Result:
             for i in range(n):
                 if A.verify_lock_key(Ya[i], cum.to_bytes(32, 'little')): viol(f'a cumulative scalar of another chain opens hop {i}', inp, 'False', True)
         if A.verify_lock_key(Ya[n - 1], kb): viol('the final key of another chain opens the last lock', inp, 'False', True)
+    # broad sweep: among many chains, a lock is opened by the cumulative scalar of its own hop and by no other scalar of any
+    # hop of any chain (an equality test that looks at part of a point would pass a fraction of these)
+    pool = []
+    for c in range(ctx.n(24, 120)):
+        n = 8
+        yc, Yc = A.setup(n, b'sweep' + c.to_bytes(2, 'big') + V.rbytes(rng, 4))
+        cum = 0
+        for j in range(n):
+            cum = (cum + int.from_bytes(yc[j], 'little')) % L
+            pool.append((c, j, Yc[j], cum.to_bytes(32, 'little')))
+    wrong = 0
+    for a_i, (ca, ja, Ya_, _) in enumerate(pool):
+        for b_i in rng.sample(range(len(pool)), min(len(pool), ctx.n(24, 60))) + [a_i]:
+            cb, jb, Yb_, kb_ = pool[b_i]
+            got = A.verify_lock_key(Ya_, kb_)
+            res.note_case(('sweep', a_i, b_i))
+            if got != (Ya_ == Yb_):
+                wrong += 1
+                if wrong <= 3:
+                    viol(f'verify_lock_key(lock of chain {ca} hop {ja}, cumulative scalar of chain {cb} hop {jb})', {'lock': Ya_.hex(), 'scalar': kb_.hex()}, str(Ya_ == Yb_), str(got))
+    res.stats['sweep_pairs'] = len(pool) * (min(len(pool), ctx.n(24, 60)) + 1)
     # setup_amhl + adapters end to end
     for it in range(ctx.n(25, 250)):
         n = rng.choice([2, 3, 3, 4, 6])
@@ -136,6 +157,12 @@ def run(ctx: Ctx) -> Result:
 def replay(ctx: Ctx, payload) -> bool:
     T = impl.tools(); A = T.AMHL
     inp = payload['input']
+    if 'lock' in inp and 'scalar' in inp:
+        import nacl.bindings as nb
+        lock, k = bytes.fromhex(inp['lock']), bytes.fromhex(inp['scalar'])
+        got = A.verify_lock_key(lock, k); want = nb.crypto_scalarmult_ed25519_base_noclamp(k) == lock
+        print('verify_lock_key:', got, 'the scalar opens the lock:', want)
+        return got == want
     if 'n' not in inp: return False
     seed = None if inp.get('seed') is None else bytes.fromhex(inp['seed'])
     y, Y = A.setup(inp['n'], seed)
